@@ -170,7 +170,14 @@ func (msg *Message) RESPBytes() ([]byte, error) {
 			return nil, fmt.Errorf(errorUnknownMessageType, msg.Type)
 		}
 		respBytes.WriteByte(b)
-		respBytes.Write(msg.bytes)
+		// A simple string, error or integer is terminated by the first CRLF:
+		// line breaks in the text are replaced by spaces, as Redis does for error replies.
+		for _, c := range msg.bytes {
+			if c == cr || c == lf {
+				c = ' '
+			}
+			respBytes.WriteByte(c)
+		}
 		respBytes.WriteRune(cr)
 		respBytes.WriteRune(lf)
 	case BulkMessage:
